@@ -27,6 +27,8 @@ class VCResult:
 
 
 def _cvc5(smt2: str, timeout_s: float):
+    # z3's simplifier splits seq.nth(s, i) into ite(in bounds, seq.nth_i(s, i), seq.nth_u(s, i)); both are the standard seq.nth for cvc5
+    smt2 = smt2.replace("seq.nth_i", "seq.nth").replace("seq.nth_u", "seq.nth")
     with tempfile.NamedTemporaryFile("w", suffix=".smt2", delete=False, dir=os.environ.get("PYVC_SCRATCH")) as fh:
         fh.write("(set-logic ALL)\n" + smt2 + "\n(check-sat)\n")
         path = fh.name
